@@ -131,7 +131,9 @@ Clauses(m, act, pre, post) ==
 MonInit == M = [bad |-> {}, rbSeen |-> {}]
 MonStep(m, act, pre, post) ==
   [ bad    |-> m.bad \cup Clauses(m, act, pre, post),
-    rbSeen |-> LET kept == { s \in m.rbSeen : Mem(post, s[2]).st # 0 \/ Mem(pre, s[2]).st = 0 }   \* forget when the member is erased
+    rbSeen |-> LET kept == { s \in m.rbSeen : /\ Mem(post, s[2]).st # 0 \/ Mem(pre, s[2]).st = 0     \* forget when the member is erased
+                                             \* ... and when the buffered intent of an unknown member left the retention window
+                                             /\ ~(act.a = "expire" /\ InSeq(act.s, s[2]) /\ Mem(pre, s[2]).st = 0) }
                IN  IF act.a = "msg" /\ InSeq(post.out, MsgOf(act)) /\ (Mem(post, act.x).st # 0 \/ Mem(pre, act.x).st = 0)
                      THEN kept \cup {MsgOf(act)} ELSE kept ]
 
@@ -202,6 +204,14 @@ ApiReap(f, l) ==
   /\ Len(R.failedL) + Len(R.leftL) > 0
   /\ Apply(Reap(R, SeqSet(f), SeqSet(l)), [a |-> "reap", f |-> f, l |-> l], mlUp)
 
+\* Wall time passes: the buffered intents of the names in s get older than RecentIntentTimeout and the reaper's next
+\* pass (handleReap -> reapIntents) drops them; nothing is gossiped and no member changes.
+IntSeq == SelectSeq([i \in 1..NN |-> i - 1], LAMBDA x : R.intents[x].ty # 0)
+TimeExpire(s) ==
+  /\ s # <<>>
+  /\ Apply(NoRes([R EXCEPT !.intents = [x \in Names |-> IF x \in SeqSet(s) THEN NoInt ELSE R.intents[x]]]),
+           [a |-> "expire", s |-> s], mlUp)
+
 Init == /\ R = NewReplica(Self) /\ mlUp = {}
         /\ obs = ObsOf(NewReplica(Self), NoRes(NewReplica(Self)))
         /\ last = [a |-> "init"] /\ steps = 0 /\ MonInit
@@ -215,6 +225,7 @@ Next ==
      \/ ApiBroadcastJoin
      \/ ApiLeave
      \/ \E f \in IncSubs(R.failedL), l \in IncSubs(R.leftL) : ApiReap(f, l)
+     \/ \E s \in IncSubs(IntSeq) : TimeExpire(s)
 
 Spec == Init /\ [][Next]_vars
 Props == M.bad = {}
